@@ -8,7 +8,7 @@ From Coq Require Import ZArith List Bool Lia String Sorted.
 From Low Require Import Lib.MachInt Lib.Bits Lib.BitSeq Lib.Val
   Model.BitmapNext Model.BitmapNext32 Model.BitmapNextIter Model.BitmapNextReaders Model.BitmapOf
   Spec.NextSpec Spec.NextTotalSpec
-  Proofs.NextProofs Proofs.NextTotal Proofs.NextLaws Proofs.NextCount Proofs.NextOf Proofs.NextSelect
+  Proofs.NextProofs Proofs.NextTotal Proofs.NextLaws Proofs.NextCount Proofs.NextOf Proofs.NextSelect Proofs.NextSlice
   Proofs.OfInspect Run.NextWide Run.C13.
 Import ListNotations.
 Open Scope Z_scope.
@@ -196,6 +196,12 @@ Proof.
   - intros p Hp. rewrite Forall_forall in Hf. specialize (Hf p Hp). lia.
 Qed.
 
+Lemma ok_slice_walk : op_ok (nth 13 ops_C13_wide (Build_opdef "" (fun _ => VBad) (fun _ _ => false))).
+Proof.
+  apply with_bm_i_e_ok. intros bm i e Hok Hs D. apply iter_dom_props in D.
+  rewrite (SliceWalk_exact bm i e) by (try assumption; lia). reflexivity.
+Qed.
+
 (** * the core operations *)
 Lemma opt_all_map_Some {A B} (f : A -> option B) (g : A -> B) l :
   (forall x, In x l -> f x = Some (g x)) -> opt_all (map f l) = Some (map g l).
@@ -268,7 +274,7 @@ Proof.
     + exact ok_core_prev.
     + exact ok_core_ends.
     + exact ok_core_starts.
-  - unfold ops_C13_wide. repeat apply Forall_cons; [| | | | | | | | | | | | |apply Forall_nil].
+  - unfold ops_C13_wide. repeat apply Forall_cons; [| | | | | | | | | | | | | |apply Forall_nil].
     + exact ok_sparse_next.
     + exact ok_sparse_prev.
     + exact ok_held.
@@ -282,6 +288,7 @@ Proof.
     + exact ok_any_next.
     + exact ok_any_prev.
     + exact ok_of_walk.
+    + exact ok_slice_walk.
 Qed.
 
 (** in the words of the driver: a C13 case is never judged MODELBUG *)
